@@ -204,6 +204,29 @@ CLAIMS["C20"] = dict(
          "handling; nothing but the magnitude-preserving re-orientation touches dt between a callback and the next step; the recursive call for a terminal event "
          "passes no callbacks; each system owns its counters (a DiffRHS argument is copied, DiffRHS.__copy__ starts from zero).")
 
+# clauses decided by rules added in later rounds (DESIGN.md 10.6); appended to the claim text of each property
+ADDENDA = {
+    "C02": "Also decided: the splitting stage loop, executed symbolically for stages 0..2, evaluates the rhs at the composition's times and partial states; "
+           "the tolerances handed to the stage solver are k*(atol + rtol*|y|) of the integrator's own settings.",
+    "C03": "Also decided: an early return before the loop is taken only at rounding distance from the target; the orientation helper keeps the magnitude of the step it is given.",
+    "C04": "Also decided: the proposal is not stored unconditionally while the last step is clamped; the loop guard compares |tf - t| with a rounding-size threshold and reads no direction.",
+    "C05": "Also decided: the recorded (time, state) are the accepted attempt's own increments; a NaN error estimate makes the controller reject (NaN-taint analysis of update_timestep).",
+    "C06": "Also decided: DenseOutput's query functions write no state; every mutation of the piece list passes through the invalidation of the cached interval arrays before the mutating method returns.",
+    "C08": "Also decided (re-judged for this property): sentinel discipline of the duplicate filter, ordering before truncation, and the in-step test is mirrored by the direction of the CURRENT step with its far edge closed.",
+    "C09": "Also decided: the far edge of the in-step test is closed in both directions (a terminal event at the end of a step is reported).",
+    "C11": "Also decided (re-judged): the propagated increment and the stage arguments are the table's, so R(z) is the stability function of the computed step.",
+    "C12": "Also decided: every handler that can catch a class raised by integrator code (exception hierarchy resolved) records the failure status and re-raises; a NaN error estimate is rejected rather than committed.",
+    "C13": "Also decided: the tolerance setters rebuild the integrator (its constructor copies the tolerances); every store of reset() is unconditional; no in-place update through a name that may alias a constructor argument or attribute.",
+    "C14": "Also decided: machine-epsilon floors of the tolerance take the bracket's dtype; the solvers write no state outside their locals.",
+    "C15": "Also decided: the residual term of the success expression is bounded by an absolute tolerance; the solvers write no state outside their locals.",
+    "C16": "Also decided: the evaluating methods of JacobianWrapper assign no instance state (no template cached from an earlier call).",
+    "C17": "Also decided: the lookup and Hermite evaluation functions write nothing but their locals.",
+    "C19": "Also decided: the integer branch is interpreted for every index in [-2n-4, n+3] against list semantics (numpy's negative wrap modelled); __getitem__ writes no state; the piece removed on the terminal path is selected by the direction.",
+    "C20": "Also decided: the callback list iterated is a fresh list on every path; reset() zeroes the counters unconditionally.",
+}
+for _k, _v in ADDENDA.items():
+    CLAIMS[_k]["text"] = CLAIMS[_k]["text"] + " " + _v
+
 PENDING = {}   # property -> reason it is not (yet) claimed
 
 
